@@ -273,7 +273,8 @@ func (c *Calcium) SetNode(ctx context.Context, opts *types.SetNodeOptions) (*typ
 				if len(opts.Resources) == 0 {
 					return nil
 				}
-				_, _, err = c.rmgr.SetNodeResourceCapacity(ctx, n.Name, nil, origin, false, plugins.Decr)
+				// origin is the node resource (not a request) the plugins held before: write it back as is
+				_, _, err = c.rmgr.SetNodeResourceCapacity(ctx, n.Name, origin, nil, false, plugins.Incr)
 				return err
 			},
 			c.config.GlobalTimeout)
